@@ -542,6 +542,8 @@ impl State {
                     }
                 };
                 let (new_write, new_path) = open_log_file(&self.config, Some(&infix))?;
+                #[cfg(flexi_logger_verif)]
+                crate::verif_hooks::sync_op(crate::verif_hooks::Op::Point("rotation_opened"));
 
                 // a buffering writer swallows errors when it is dropped
                 current_write.flush().unwrap_or_else(|e| {
